@@ -402,8 +402,9 @@ def saveStream (H : Bytes → Bytes) (t : Trie) : List Write :=
   [ .putNodes (t.cc.getChanges.map (fun c => (c.new.key H, c.new.encode H))),
     .putRec t.version (t.cc.getDeletes.map (Ref.key H)) ]
 
-/-- `PruneBelowVersion(version)`: the records below `version` in ascending order; their keys are deleted in batches
-    closed as soon as `maxN` keys are gathered, the rest in a last batch; then one batch drops the records. -/
+/-- `PruneBelowVersion(version)`; `version` is the int64 argument clamped at 0 (the code returns at once, without
+    any write, for `version <= 0`).  Otherwise: the records below `version` in ascending order; their keys are deleted
+    in batches closed as soon as `maxN` keys are gathered, the rest in a last batch; then one batch drops the records. -/
 def pruneBatches (maxN : Nat) : List (Nat × List Bytes) → List Bytes → List Write
   | [], acc => if acc.isEmpty then [] else [.delNodes acc]
   | (_, ks) :: r, acc =>
@@ -418,8 +419,10 @@ def recordsBelow (d : DeadRecs) (version : Nat) : List (Nat × List Bytes) :=
   (d.filter (fun e => e.1 < version)).foldr insertSorted []
 
 def pruneStream (maxN : Nat) (s : PStore) (version : Nat) : List Write :=
-  let recs := recordsBelow s.dead version
-  pruneBatches maxN recs [] ++ [.delRecs (recs.map (·.1))]
+  if version = 0 then []
+  else
+    let recs := recordsBelow s.dead version
+    pruneBatches maxN recs [] ++ [.delRecs (recs.map (·.1))]
 
 /-! ### resolvability: every node of a tree is stored under its key with its encoding -/
 
